@@ -231,11 +231,11 @@ func hPool() []hCons {
 	p = append(p, hStart("a", []hAttr{hAttrPool[1], hAttrPool[2], hAttrPool[0]}, []string{" ", "\n", "  "}, "", ">"), hStart("a", []hAttr{hAttrPool[3], hAttrPool[5]}, nil, " ", ">"),
 		hStart("a", []hAttr{hAttrPool[1], hAttrPool[1]}, nil, "", ">"))
 	// svg and math: one token per subtree
-	for _, s := range []string{"<svg>text</svg>", "<svg width=1><path d=\"M0 0\"/></svg>", "<SVG></SVG>", "<svg><x a=\"</svg>\"></x></svg>", "<svg></svg >", "<svg/></svg>", "<svg><a></a><!-- c --></svg>", "<svg a='\"'></svg>"} {
+	for _, s := range []string{"<svg>text</svg>", "<svg width=1><path d=\"M0 0\"/></svg>", "<SVG></SVG>", "<svg><x a=\"</svg>\"></x></svg>", "<svg></svg >", "<svg/>", "<svg width=1 />", "<svg><svg></svg></svg>", "<svg><svg/></svg>", "<svg><g><SVG x=1><rect/></svg ></g><svg/></svg>", "<svg><svgx></svg>", "<svg><a></a><!-- c --></svg>", "<svg a='\"'></svg>"} {
 		low := "<svg" + s[4:]
 		p = append(p, hOne(html.SVGToken, s, low, ""))
 	}
-	for _, s := range []string{"<math><mi>x</mi></math>", "<MATH></MATH>", "<math a=\"</math>\"></math>"} {
+	for _, s := range []string{"<math><mi>x</mi></math>", "<MATH></MATH>", "<math a=\"</math>\"></math>", "<math/>", "<math><math/><math></math></math>"} {
 		low := "<math" + s[5:]
 		p = append(p, hOne(html.MathToken, s, low, ""))
 	}
@@ -243,7 +243,7 @@ func hPool() []hCons {
 	for _, s := range []string{"<svg><math></math>x</svg>", "<svg><foreignObject><math><mi>x</mi></MATH ></foreignObject><rect/></svg>", "<svg><xml></xml><g/></svg>"} {
 		p = append(p, hOne(html.SVGToken, s, s, ""))
 	}
-	for _, s := range []string{"<math><annotation-xml><svg></svg></annotation-xml><mi/></math>", "<math><svg><math></svg></math>"} {
+	for _, s := range []string{"<math><annotation-xml><svg></svg></annotation-xml><mi/></math>", "<math><svg><math></math></svg></math>"} {
 		p = append(p, hOne(html.MathToken, s, s, ""))
 	}
 	// raw-text elements as constructs (empty and with markup-like content): what follows them is markup again
@@ -625,7 +625,27 @@ func c09Work(c *engine.Ctx) {
 				{"<script>a" + r + "b</script>", []hTok{{tt: html.StartTagToken, data: "<script", text: "script"}, {tt: html.StartTagCloseToken, data: ">"}, {tt: html.TextToken, data: "a" + r + "b", text: "a" + r + "b", tmpl: true}, {tt: html.EndTagToken, data: "</script>", text: "script"}}},
 				{"<title>" + r + "</title>", []hTok{{tt: html.StartTagToken, data: "<title", text: "title"}, {tt: html.StartTagCloseToken, data: ">"}, {tt: html.TextToken, data: r, text: r, tmpl: true}, {tt: html.EndTagToken, data: "</title>", text: "title"}}},
 			}
+			// inside the token kinds that take everything up to their own terminator: the region is part of the token,
+			// whatever it contains, and HasTemplate() is true for that token
+			one := func(tt html.TokenType, src, low, text string) hCons {
+				return hCons{src, []hTok{{tt: tt, data: low, text: text, tmpl: true}}}
+			}
+			for _, q := range []string{r, b + "\"-->\"" + e, b + "'--!>'" + e, b + "\"]]>\"" + e, b + "\"</svg>\"" + e, b + "'</script>'" + e, b + "\"</A>\"" + e} {
+				docs = append(docs,
+					one(html.CommentToken, "<!--a"+q+"b-->", "<!--a"+q+"b-->", "a"+q+"b"), one(html.CommentToken, "<!--"+q+"--!>", "<!--"+q+"--!>", q),
+					one(html.CommentToken, "<!x"+q+">", "<!x"+q+">", "x"+q), one(html.CommentToken, "<?x"+q+"y>", "<?x"+q+"y>", "x"+q+"y"), one(html.CommentToken, "</"+q+">", "</"+q+">", q),
+					one(html.DoctypeToken, "<!doctype "+q+">", "<!doctype "+q+">", " "+q), one(html.DoctypeToken, "<!DOCTYPE html "+q+">", "<!DOCTYPE html "+q+">", " html "+q),
+					one(html.TextToken, "<![CDATA[a"+q+"b]]>", "<![CDATA[a"+q+"b]]>", "a"+q+"b"),
+					one(html.EndTagToken, "</a"+q+">", "</a"+q+">", "a"+q), one(html.EndTagToken, "</A "+q+" >", "</a "+q+" >", "a "+q), one(html.EndTagToken, "</P"+q+"Q>", "</p"+q+"Q>", "p"+q+"Q"),
+					one(html.SVGToken, "<svg>"+q+"</svg>", "<svg>"+q+"</svg>", ""), one(html.SVGToken, "<SVG a="+q+"><b/></svg>", "<svg a="+q+"><b/></svg>", ""), one(html.MathToken, "<math><mi>"+q+"</mi></math>", "<math><mi>"+q+"</mi></math>", ""),
+					hCons{"<plaintext>a" + q + "b", []hTok{{tt: html.StartTagToken, data: "<plaintext", text: "plaintext"}, {tt: html.StartTagCloseToken, data: ">"}, {tt: html.TextToken, data: "a" + q + "b", text: "a" + q + "b", tmpl: true}}},
+					hCons{"<script><!--" + q + "--></script>", []hTok{{tt: html.StartTagToken, data: "<script", text: "script"}, {tt: html.StartTagCloseToken, data: ">"}, {tt: html.TextToken, data: "<!--" + q + "-->", text: "<!--" + q + "-->", tmpl: true}, {tt: html.EndTagToken, data: "</script>", text: "script"}}},
+					hCons{"<script><!--<script>" + q + "</script>--></script>", []hTok{{tt: html.StartTagToken, data: "<script", text: "script"}, {tt: html.StartTagCloseToken, data: ">"}, {tt: html.TextToken, data: "<!--<script>" + q + "</script>-->", text: "<!--<script>" + q + "</script>-->", tmpl: true}, {tt: html.EndTagToken, data: "</script>", text: "script"}}})
+			}
 			for _, doc := range docs {
+				if strings.HasPrefix(doc.src, "<?x") && b == "<?" {
+					continue // under this dialect "<?x" opens a region itself
+				}
 				if strings.Contains(body, "<p>") && strings.Contains(doc.src, "<a b=") && !strings.Contains(doc.src, "\"x") && !strings.Contains(doc.src, "='") {
 					// fine: the region hides '<' and '>' from the unquoted value
 				}
@@ -677,7 +697,7 @@ func c09Work(c *engine.Ctx) {
 func init() {
 	register(&engine.Check{
 		ID: "C09", Level: "exploration",
-		Rule:        "documents = every sequence of ≤2 (3) constructs from a catalogue of ~75 (text incl. stray '<', comments of every closing form, bogus comments, doctype in three cases, CDATA, end tags with whitespace, start tags × 13 attribute forms × closers × whitespace, svg/math subtrees with quoted end-tag look-alikes), plain and (≤2 constructs) under three dialects: token list (type, data, Text/AttrKey lower-cased, AttrVal verbatim, HasTemplate) equals the list known by construction; 7 raw-text elements × every content of ≤4 (5) fragments over {<, /, </, name, NAME, namex, <!--, -->, <script, </script, >, space, a, -, ', newline} × 3 tails × 2 start-tag spellings: the text token must end exactly where a transcription of the HTML tokenizer's RCDATA/RAWTEXT/script-data (double-escape) states ends the content; six template dialects × 10 region bodies (quotes, escaped quotes, fake end delimiter) × 10 placements with expected tokens; attribute/tag structure invariants on all byte strings ≤3-5 atoms over the HTML alphabets × dialects",
+		Rule:        "documents = every sequence of ≤2 (3) constructs from a catalogue of ~75 (text incl. stray '<', comments of every closing form, bogus comments, doctype in three cases, CDATA, end tags with whitespace, start tags × 13 attribute forms × closers × whitespace, svg/math subtrees with quoted end-tag look-alikes), plain and (≤2 constructs) under three dialects: token list (type, data, Text/AttrKey lower-cased, AttrVal verbatim, HasTemplate) equals the list known by construction; 7 raw-text elements × every content of ≤4 (5) fragments over {<, /, </, name, NAME, namex, <!--, -->, <script, </script, >, space, a, -, ', newline} × 3 tails × 2 start-tag spellings: the text token must end exactly where a transcription of the HTML tokenizer's RCDATA/RAWTEXT/script-data (double-escape) states ends the content; six template dialects × 10 region bodies (quotes, escaped quotes, fake end delimiter, and the quoted terminator of the surrounding token) × 27 placements with expected tokens (text, attribute names and values, raw text incl. plaintext and the escaped script states, comments of every kind, doctype, CDATA, end tags, svg/math); attribute/tag structure invariants on all byte strings ≤3-5 atoms over the HTML alphabets × dialects",
 		Assumptions: []string{"an end tag is 'matching' when its name is followed by whitespace, '/' or '>' (HTML tokenizer: appropriate end tag token)", "html.ToHash is covered by C16"},
 		Setup:       c09Setup, Work: c09Work,
 	})
